@@ -42,7 +42,9 @@ impl Uci {
             #[cfg(rce_verif)]
             crate::rce_verif::point("uci.wait_input");
             let mut line = String::new();
-            input.read_line(&mut line).unwrap();
+            if input.read_line(&mut line).unwrap() == 0 {
+                break; // End of input: the GUI has gone away
+            }
             let trimmed = line.trim();
             let fields: Vec<_> = trimmed.split_whitespace().collect();
 
